@@ -171,7 +171,11 @@ CMR_ERROR computePivots(
       if (row == pivotRow)
         continue;
 
+      /* The aggregated values are reduced first; otherwise their magnitudes grow with every pivot and eventually
+       * exceed the 8-bit range of the list matrix. */
       int rowValue = denseColumn[row];
+      if (characteristic > 0)
+        rowValue = moduloTernary(rowValue, characteristic);
       if (rowValue == 0)
         continue;
 
@@ -182,6 +186,8 @@ CMR_ERROR computePivots(
           continue;
 
         int columnValue = denseRow[column];
+        if (characteristic > 0)
+          columnValue = moduloTernary(columnValue, characteristic);
         if (columnValue == 0)
           continue;
 
